@@ -17,7 +17,9 @@ CHECKS = {
         "About a thousand type-directed random programs per quick run (expressions and statement blocks with let/const/shadowing, "
         "if/else, switch with default anywhere, fall-through, break under if, early return, completion values; forced constant-folding "
         "cells per operator and sign class) are translated by the real library, the UNMODIFIED uisupport header is compiled with g++ and "
-        "every eval function is called in 24 states; values are compared exactly (bit-identical doubles, UTF-16 code units).",
+        "every eval function is called in 24 states; values are compared exactly (bit-identical doubles, UTF-16 code units). A binding "
+        "for which no code is generated must denote the same value in every state. List element assignment, an object id equal to a "
+        "property name and a table of spelled string literals are part of the workload.",
         "Trusted: reference interpreter qv/gen_expr.py (documented semantics; overflow, uint wrap, NaN, null dereference, bad subscript = "
         "undefined and never executed), API model cxx/qtmodel_rt.h + qv/cxxmodel.py, mini-uic.",
         "DESIGN.md §4 C01",
@@ -28,7 +30,8 @@ CHECKS = {
         "exploration",
         "After setup() and after each of 30-60 accepted steps all bound targets are dumped and compared with the reference fix point of "
         "the binding network; the IR monitor checks that every non-constant pointer property read is covered by a static dependency or a "
-        "preceding observe statement; bindings reading a notify-less property must be rejected.",
+        "preceding observe statement; bindings reading a notify-less (or bindable-only) property must be rejected; a binding "
+        "without update code whose reference value differs between two states is a violation.",
         "Only quiescent states are judged (no UBSan arithmetic checks here: transient mixes of old and new values may be undefined). "
         "Model setters never clamp; object deletion is not modelled.",
         "DESIGN.md §4 C02",
@@ -136,7 +139,9 @@ CHECKS = {
         "Handlers in every form (expression, block, function, arrow; 0..n leading parameters) on Qt and synthetic signals incl. "
         "default-argument families and inherited signals; setup() must connect exactly one handler to the overload with most "
         "arguments; each defined (state, arguments) tuple is emitted and its effect trace compared in content and order; handlers on true "
-        "overloads, non-signals or with incompatible parameters must be rejected.",
+        "overloads, non-signals or with incompatible parameters must be rejected. Also: handlers whose parameters are value classes "
+        "(QFont) and are modified / copied / re-assigned; handlers on anonymous objects next to look-alike classes, clicked by tree "
+        "position; a variable re-declared in a case clause and read after the switch.",
         "At most one side-effecting call per statement; order between a call's receiver and arguments is not judged.",
         "DESIGN.md §4 C13",
     ),
@@ -192,7 +197,9 @@ CHECKS = {
         "Hundreds to thousands of generated class graphs (chains, multiple inheritance, diamonds, private/protected edges, self loops, cycles, "
         "dangling and non-class super names) are loaded as type information; is_derived_from, get_property, get_public_method, nested "
         "enum and variant lookups and common_base_class are queried for all subject pairs and pool names and compared with a BFS over the "
-        "JSON description; every query must finish within a CPU budget.",
+        "JSON description; every query must finish within a CPU budget. Members carry types (some unresolvable); a quarter of the graphs "
+        "span several modules with same-named distinct classes and modules imported twice, and every name is resolved through the import "
+        "list and through a pushed import stack (the two must agree).",
         "Termination is restated as bounded progress (10 s CPU per job; observed maximum well below 1 ms per query).",
         "DESIGN.md §4 C17",
     ),
